@@ -28,10 +28,10 @@ type physFile struct {
 	Path    string `json:"path"`
 	Inode   uint64 `json:"inode"`
 	Size    int64  `json:"size"`
-	Rotated string `json:"rotated,omitempty"` // "" | running | down
-	Epoch   int    `json:"epoch"`             // number of truncations
-	Gone    string `json:"gone,omitempty"`    // the file went away (its name was unlinked / renamed over): down | running
-	GoneBy  string `json:"gone_by,omitempty"` // unlink | rename-over
+	Rotated string `json:"rotated,omitempty"`      // "" | running | down
+	Epoch   int    `json:"epoch"`                  // number of truncations
+	Gone    string `json:"gone,omitempty"`         // the file went away (its name was unlinked / renamed over): down | running
+	GoneBy  string `json:"gone_by,omitempty"`      // unlink | rename-over
 	Reused  bool   `json:"reused_inode,omitempty"` // this file obtained the inode number of a file that had gone away
 }
 
@@ -71,14 +71,14 @@ type proc struct {
 	hookCrash      string
 	truncSeen      int
 	wrongFormat    int
-	badIDs         map[string]bool // ids seen inside the payload of a "wrong log format" error
-	noWatcher      bool            // "can't create fs watcher" (inotify instance limit of the machine): the run observes nothing
-	deletedJobs    map[string]bool // source ids of jobs deleted by maintenance
-	readded        int             // jobs added again for a source id whose job had been deleted
-	writeNotifies  int             // "notify notify.Write ..." lines (logged right before the watcher's Lstat)
-	createNotifies int             // "notify notify.Create ..." lines (start-up walk and new files)
-	reopenTicks    int             // maintenance ticks that closed and reopened at least one fully read file
-	offsetsAtStop  bool            // graceful stop: "saving last known offsets..." then "stopping output" were logged
+	badIDs         map[string]bool   // ids seen inside the payload of a "wrong log format" error
+	noWatcher      bool              // "can't create fs watcher" (inotify instance limit of the machine): the run observes nothing
+	deletedJobs    map[string]bool   // source ids of jobs deleted by maintenance
+	readded        int               // jobs added again for a source id whose job had been deleted
+	writeNotifies  int               // "notify notify.Write ..." lines (logged right before the watcher's Lstat)
+	createNotifies int               // "notify notify.Create ..." lines (start-up walk and new files)
+	reopenTicks    int               // maintenance ticks that closed and reopened at least one fully read file
+	offsetsAtStop  bool              // graceful stop: "saving last known offsets..." then "stopping output" were logged
 	addedSID       map[string]string // file name -> source id of the job last added under that name
 }
 
@@ -745,6 +745,7 @@ func runScenario(s *Scenario, bin string) *result {
 			// wait until the offsets file on disk has an entry for the file whose smallest stream offset is >= op.Ms
 			dl := time.Now().Add(8 * time.Second)
 			var ph *physFile
+			t0 := time.Now()
 			want := map[string]int64{} // op.Ms < 0: every stream of the file must be saved up to its last line
 			if op.Raw == "X" {
 				if r.xPhys < 0 {
@@ -764,6 +765,7 @@ func runScenario(s *Scenario, bin string) *result {
 			}
 			for {
 				ok := false
+				r.p.drain()
 				if b, err := os.ReadFile(filepath.Join(r.dir, "offsets.yaml")); err == nil {
 					for _, e := range parseOffsets(string(b)) {
 						if e.Inode == ph.Inode && len(e.Streams) > 0 {
@@ -773,9 +775,27 @@ func runScenario(s *Scenario, bin string) *result {
 									ok = false
 								}
 							}
+							full := true
 							for st, v := range want {
 								if e.Streams[st] < v {
-									ok = false
+									full = false
+								}
+							}
+							if !full {
+								// file.d may have dropped the job before its last commits arrived (job deleted by
+								// maintenance under a stale name after a rotation): once the process is idle nothing
+								// more will be saved, so an entry with positive offsets is what the restart gets
+								ok = false
+								if r.p.idle() && time.Since(t0) > 1200*time.Millisecond {
+									ok = true
+									for _, v := range e.Streams {
+										if v <= 0 {
+											ok = false
+										}
+									}
+									if ok {
+										r.note("offsets of %s saved only up to %v (its last lines end at %v)", filepath.Base(ph.Path), e.Streams, want)
+									}
 								}
 							}
 						}
